@@ -1,1 +1,1651 @@
-//! (stub — being implemented)
+//! Independent container walkers (DESIGN §4.1, §4.2). No SDK parsing code is used: every walker is
+//! written from the format's specification and only knows *where* C2PA puts the manifest store
+//! (JPEG APP11/JUMBF, PNG `caBX`, GIF `C2PA_GIF` application extension, RIFF `C2PA` chunk, TIFF tag
+//! 0xCD41, SVG `metadata/c2pa:manifest`, ID3v2 `GEOB` application/c2pa for MP3 **and FLAC** (that is
+//! where this SDK writes it), JPEG XL `jumb` box, BMFF C2PA `uuid` box, sidecar = whole file).
+//!
+//! All functions take a kind (`vh::assets::KINDS`), a mime type or a file extension.
+
+use base64::Engine;
+
+#[derive(Clone, Debug, PartialEq, Eq, Hash, serde::Serialize, serde::Deserialize)]
+pub struct Unit {
+    pub kind: String,
+    pub start: usize,
+    pub len: usize,
+    pub is_manifest: bool,
+    pub payload_start: usize,
+    pub payload_len: usize,
+}
+
+impl Unit {
+    pub fn end(&self) -> usize {
+        self.start + self.len
+    }
+}
+
+const C2PA_STORE_UUID: [u8; 16] =
+    [0x63, 0x32, 0x70, 0x61, 0x00, 0x11, 0x00, 0x10, 0x80, 0x00, 0x00, 0xAA, 0x00, 0x38, 0x9B, 0x71];
+const BMFF_C2PA_UUID: [u8; 16] =
+    [0xd8, 0xfe, 0xc3, 0xd6, 0x1b, 0x0e, 0x48, 0x3c, 0x92, 0x97, 0x58, 0x28, 0x87, 0x7e, 0xc4, 0x81];
+
+/// Container family of a kind / mime type / extension.
+pub fn family(k: &str) -> Option<&'static str> {
+    let k = k.trim().to_ascii_lowercase();
+    Some(match k.as_str() {
+        "jpeg" | "jpg" | "image/jpeg" => "jpeg",
+        "png" | "image/png" => "png",
+        "gif" | "image/gif" => "gif",
+        "wav" | "webp" | "avi" | "riff" | "audio/wav" | "audio/wave" | "audio/x-wav" | "audio/vnd.wave" | "image/webp"
+        | "video/avi" | "video/msvideo" | "video/x-msvideo" | "application/x-troff-msvideo" => "riff",
+        "tiff" | "tif" | "dng" | "image/tiff" | "image/dng" | "image/x-adobe-dng" => "tiff",
+        "svg" | "image/svg+xml" | "application/svg+xml" => "svg",
+        "mp3" | "audio/mpeg" | "audio/mp3" | "audio/x-mp3" | "audio/mpeg3" => "mp3",
+        "flac" | "audio/flac" => "flac",
+        "jxl" | "image/jxl" => "jxl",
+        "mp4" | "mov" | "heic" | "heif" | "avif" | "m4a" | "m4v" | "bmff" | "video/mp4" | "video/quicktime" | "image/heic"
+        | "image/heif" | "image/avif" | "audio/mp4" | "application/mp4" | "video/x-m4v" => "bmff",
+        "c2pa" | "application/c2pa" | "application/x-c2pa-manifest-store" => "c2pa",
+        _ => return None,
+    })
+}
+
+struct Walked {
+    units: Vec<Unit>,
+    spans: Vec<(usize, usize)>,
+    store: Option<Vec<u8>>,
+}
+
+fn walk_full(kind: &str, b: &[u8]) -> Result<Walked, String> {
+    let fam = family(kind).ok_or_else(|| format!("walk: unknown kind {kind}"))?;
+    let mut w = match fam {
+        "jpeg" => walk_jpeg(b)?,
+        "png" => walk_png(b)?,
+        "gif" => walk_gif(b)?,
+        "riff" => walk_riff(b)?,
+        "tiff" => walk_tiff(b)?,
+        "svg" => walk_svg(b)?,
+        "mp3" => walk_id3_audio(b, false)?,
+        "flac" => walk_id3_audio(b, true)?,
+        "jxl" => walk_jxl(b)?,
+        "bmff" => walk_bmff(b)?,
+        _ => {
+            let u = Unit { kind: "C2PA".into(), start: 0, len: b.len(), is_manifest: !b.is_empty(), payload_start: 0, payload_len: b.len() };
+            Walked { units: if b.is_empty() { vec![] } else { vec![u] }, spans: if b.is_empty() { vec![] } else { vec![(0, b.len())] }, store: if b.is_empty() { None } else { Some(b.to_vec()) } }
+        }
+    };
+    w.units.retain(|u| u.len > 0 || u.is_manifest);
+    check_cover(&w.units, b.len())?;
+    Ok(w)
+}
+
+fn check_cover(units: &[Unit], len: usize) -> Result<(), String> {
+    let mut at = 0;
+    for u in units {
+        if u.start != at {
+            return Err(format!("walker bug: unit {} starts at {} but previous ended at {}", u.kind, u.start, at));
+        }
+        if u.payload_start < u.start || u.payload_start + u.payload_len > u.end() {
+            return Err(format!("walker bug: payload of {} outside unit", u.kind));
+        }
+        at = u.end();
+    }
+    if at != len {
+        return Err(format!("walker bug: units end at {at}, file has {len} bytes"));
+    }
+    Ok(())
+}
+
+/// Top-level units covering the file in order.
+pub fn walk(kind: &str, bytes: &[u8]) -> Result<Vec<Unit>, String> {
+    walk_full(kind, bytes).map(|w| w.units)
+}
+
+/// Byte spans `(start, len)` of the C2PA manifest container(s).
+pub fn manifest_spans(kind: &str, bytes: &[u8]) -> Result<Vec<(usize, usize)>, String> {
+    walk_full(kind, bytes).map(|w| w.spans)
+}
+
+/// The embedded manifest store reassembled by the walker (`None` when absent).
+pub fn extract_store(kind: &str, bytes: &[u8]) -> Result<Option<Vec<u8>>, String> {
+    walk_full(kind, bytes).map(|w| w.store)
+}
+
+/// Magic-byte table of the harness → kind.
+pub fn sniff(b: &[u8]) -> Option<&'static str> {
+    if b.len() >= 3 && b[..3] == [0xFF, 0xD8, 0xFF] {
+        return Some("jpeg");
+    }
+    if b.len() >= 8 && b[..8] == [137, 80, 78, 71, 13, 10, 26, 10] {
+        return Some("png");
+    }
+    if b.len() >= 6 && (&b[..6] == b"GIF87a" || &b[..6] == b"GIF89a") {
+        return Some("gif");
+    }
+    if b.len() >= 12 && &b[..4] == b"RIFF" {
+        return match &b[8..12] {
+            b"WAVE" => Some("wav"),
+            b"WEBP" => Some("webp"),
+            b"AVI " => Some("avi"),
+            _ => None,
+        };
+    }
+    if b.len() >= 4 && (&b[..4] == b"II*\0" || &b[..4] == b"MM\0*" || &b[..4] == b"II+\0" || &b[..4] == b"MM\0+") {
+        return Some("tiff");
+    }
+    if b.len() >= 12 && b[..12] == [0, 0, 0, 0x0C, b'J', b'X', b'L', b' ', 0x0D, 0x0A, 0x87, 0x0A] {
+        return Some("jxl");
+    }
+    if b.len() >= 4 && &b[..4] == b"fLaC" {
+        return Some("flac");
+    }
+    if b.len() >= 10 && &b[..3] == b"ID3" {
+        let n = 10 + syncsafe(&b[6..10]) + if b[5] & 0x10 != 0 { 10 } else { 0 };
+        if b.len() >= n + 4 && &b[n..n + 4] == b"fLaC" {
+            return Some("flac");
+        }
+        return Some("mp3");
+    }
+    if b.len() >= 2 && b[0] == 0xFF && b[1] & 0xE0 == 0xE0 {
+        return Some("mp3");
+    }
+    if b.len() >= 12 && &b[4..8] == b"ftyp" {
+        let sz = (be32(b, 0) as usize).clamp(16, b.len());
+        let mut brands = vec![&b[8..12]];
+        let mut p = 16;
+        while p + 4 <= sz {
+            brands.push(&b[p..p + 4]);
+            p += 4;
+        }
+        let major = brands[0];
+        return Some(match major {
+            b"heic" | b"heix" | b"mif1" | b"msf1" | b"hevc" if brands.iter().any(|x| *x == b"avif") => "avif",
+            b"avif" | b"avis" => "avif",
+            b"heic" | b"heix" | b"mif1" | b"msf1" | b"hevc" | b"heim" | b"heis" => "heic",
+            b"qt  " => "mov",
+            b"M4A " | b"M4B " => "m4a",
+            _ => "mp4",
+        });
+    }
+    if b.len() >= 24 && &b[4..8] == b"jumb" && &b[12..16] == b"jumd" && b[16..32.min(b.len())] == C2PA_STORE_UUID[..(32.min(b.len()) - 16)] {
+        return Some("c2pa");
+    }
+    // XML / SVG: optional BOM, whitespace, then '<'
+    let mut s = b;
+    if s.len() >= 3 && s[..3] == [0xEF, 0xBB, 0xBF] {
+        s = &s[3..];
+    }
+    let t: Vec<u8> = s.iter().copied().skip_while(|c| c.is_ascii_whitespace()).take(2048).collect();
+    if t.starts_with(b"<") {
+        let txt = String::from_utf8_lossy(&t);
+        if txt.contains("<svg") || txt.starts_with("<?xml") || txt.starts_with("<!--") || txt.starts_with("<!DOCTYPE svg") {
+            return Some("svg");
+        }
+    }
+    None
+}
+
+fn be16(b: &[u8], p: usize) -> u16 {
+    u16::from_be_bytes([b[p], b[p + 1]])
+}
+fn be32(b: &[u8], p: usize) -> u32 {
+    u32::from_be_bytes([b[p], b[p + 1], b[p + 2], b[p + 3]])
+}
+fn be64(b: &[u8], p: usize) -> u64 {
+    let mut a = [0u8; 8];
+    a.copy_from_slice(&b[p..p + 8]);
+    u64::from_be_bytes(a)
+}
+fn le32(b: &[u8], p: usize) -> u32 {
+    u32::from_le_bytes([b[p], b[p + 1], b[p + 2], b[p + 3]])
+}
+fn syncsafe(b: &[u8]) -> usize {
+    ((b[0] as usize & 0x7F) << 21) | ((b[1] as usize & 0x7F) << 14) | ((b[2] as usize & 0x7F) << 7) | (b[3] as usize & 0x7F)
+}
+fn unit(kind: impl Into<String>, start: usize, len: usize, pstart: usize, plen: usize) -> Unit {
+    Unit { kind: kind.into(), start, len, is_manifest: false, payload_start: pstart, payload_len: plen }
+}
+fn fourcc(b: &[u8]) -> String {
+    b.iter().map(|c| if (0x20..0x7F).contains(c) { *c as char } else { '?' }).collect()
+}
+
+// ------------------------------------------------------------------------------------------------
+// JPEG
+// ------------------------------------------------------------------------------------------------
+
+fn jpeg_marker_name(m: u8) -> String {
+    match m {
+        0xC0..=0xC3 | 0xC5..=0xC7 | 0xC9..=0xCB | 0xCD..=0xCF => format!("SOF{}", m - 0xC0),
+        0xC4 => "DHT".into(),
+        0xC8 => "JPG".into(),
+        0xCC => "DAC".into(),
+        0xD0..=0xD7 => format!("RST{}", m - 0xD0),
+        0xD8 => "SOI".into(),
+        0xD9 => "EOI".into(),
+        0xDA => "SOS".into(),
+        0xDB => "DQT".into(),
+        0xDC => "DNL".into(),
+        0xDD => "DRI".into(),
+        0xDE => "DHP".into(),
+        0xDF => "EXP".into(),
+        0xE0..=0xEF => format!("APP{}", m - 0xE0),
+        0xFE => "COM".into(),
+        _ => format!("M{m:02X}"),
+    }
+}
+
+fn walk_jpeg(b: &[u8]) -> Result<Walked, String> {
+    if b.len() < 2 || b[0] != 0xFF || b[1] != 0xD8 {
+        return Err("jpeg: no SOI".into());
+    }
+    let mut units = vec![unit("SOI", 0, 2, 2, 0)];
+    let mut p = 2;
+    let n = b.len();
+    let mut saw_eoi = false;
+    while p < n {
+        if b[p] != 0xFF {
+            return Err(format!("jpeg: expected marker at {p}"));
+        }
+        let start = p;
+        // fill bytes
+        while p < n && b[p] == 0xFF {
+            p += 1;
+        }
+        if p >= n {
+            units.push(unit("fill", start, n - start, start, 0));
+            break;
+        }
+        let m = b[p];
+        p += 1;
+        if m == 0xD9 {
+            units.push(unit("EOI", start, p - start, p, 0));
+            saw_eoi = true;
+            break;
+        }
+        if m == 0x01 || (0xD0..=0xD8).contains(&m) || m == 0x00 {
+            units.push(unit(jpeg_marker_name(m), start, p - start, p, 0));
+            continue;
+        }
+        if p + 2 > n {
+            return Err(format!("jpeg: truncated length at {p}"));
+        }
+        let l = be16(b, p) as usize;
+        if l < 2 || p + l > n {
+            return Err(format!("jpeg: bad segment length {l} at {p}"));
+        }
+        units.push(unit(jpeg_marker_name(m), start, p + l - start, p + 2, l - 2));
+        p += l;
+        if m == 0xDA {
+            // entropy-coded data up to the next marker that is neither stuffing, RSTn nor fill
+            let s = p;
+            while p < n {
+                if b[p] == 0xFF && p + 1 < n {
+                    let x = b[p + 1];
+                    if x == 0x00 || (0xD0..=0xD7).contains(&x) {
+                        p += 2;
+                        continue;
+                    }
+                    if x == 0xFF {
+                        p += 1;
+                        continue;
+                    }
+                    break;
+                }
+                p += 1;
+            }
+            units.push(unit("scan", s, p - s, s, p - s));
+        }
+    }
+    if saw_eoi && p < n {
+        units.push(unit("trailing", p, n - p, p, n - p));
+    }
+    // C2PA: APP11 JUMBF segments (ISO 19566-5) whose description box has the C2PA store UUID
+    let mut c2pa_en: Vec<[u8; 2]> = vec![];
+    let mut parts: Vec<(usize, u32)> = vec![]; // (unit index, Z)
+    for (i, u) in units.iter_mut().enumerate() {
+        if u.kind != "APP11" || u.payload_len < 16 {
+            continue;
+        }
+        let c = &b[u.payload_start..u.payload_start + u.payload_len];
+        if &c[0..2] != b"JP" || &c[12..16] != b"jumb" {
+            continue;
+        }
+        let en = [c[2], c[3]];
+        let z = be32(c, 4);
+        if c2pa_en.contains(&en) {
+            u.is_manifest = true;
+            parts.push((i, z));
+        } else if z == 1 && c.len() >= 40 && &c[20..24] == b"jumd" && c[24..40] == C2PA_STORE_UUID {
+            c2pa_en.push(en);
+            u.is_manifest = true;
+            parts.push((i, z));
+        }
+    }
+    let mut store = None;
+    if !parts.is_empty() {
+        if c2pa_en.len() > 1 {
+            return Err("jpeg: more than one C2PA JUMBF box instance".into());
+        }
+        let mut v = vec![];
+        for (k, (i, z)) in parts.iter().enumerate() {
+            if *z as usize != k + 1 {
+                return Err(format!("jpeg: C2PA APP11 sequence number {z} at position {k}"));
+            }
+            let u = &units[*i];
+            let c = &b[u.payload_start..u.payload_start + u.payload_len];
+            v.extend_from_slice(if k == 0 { &c[8..] } else { &c[16..] });
+        }
+        for (i, _) in &parts {
+            units[*i].kind = "C2PA-APP11".into();
+        }
+        store = Some(v);
+    }
+    let spans = units.iter().filter(|u| u.is_manifest).map(|u| (u.start, u.len)).collect();
+    Ok(Walked { units, spans, store })
+}
+
+// ------------------------------------------------------------------------------------------------
+// PNG
+// ------------------------------------------------------------------------------------------------
+
+fn walk_png(b: &[u8]) -> Result<Walked, String> {
+    if b.len() < 8 || b[..8] != [137, 80, 78, 71, 13, 10, 26, 10] {
+        return Err("png: bad signature".into());
+    }
+    let mut units = vec![unit("signature", 0, 8, 8, 0)];
+    let mut p = 8;
+    let n = b.len();
+    let mut store = None;
+    let mut end = false;
+    while p < n && !end {
+        if p + 12 > n {
+            return Err(format!("png: truncated chunk header at {p}"));
+        }
+        let l = be32(b, p) as usize;
+        if p + 12 + l > n {
+            return Err(format!("png: chunk at {p} exceeds file"));
+        }
+        let t = &b[p + 4..p + 8];
+        let mut u = unit(fourcc(t), p, 12 + l, p + 8, l);
+        if t == b"caBX" {
+            u.is_manifest = true;
+            if store.is_some() {
+                return Err("png: more than one caBX chunk".into());
+            }
+            store = Some(b[p + 8..p + 8 + l].to_vec());
+        }
+        end = t == b"IEND";
+        units.push(u);
+        p += 12 + l;
+    }
+    if !end {
+        return Err("png: no IEND".into());
+    }
+    if p < n {
+        units.push(unit("trailing", p, n - p, p, n - p));
+    }
+    let spans = units.iter().filter(|u| u.is_manifest).map(|u| (u.start, u.len)).collect();
+    Ok(Walked { units, spans, store })
+}
+
+// ------------------------------------------------------------------------------------------------
+// GIF
+// ------------------------------------------------------------------------------------------------
+
+/// Skips data sub-blocks starting at `p`; returns the position after the terminator and the payload.
+fn gif_sub_blocks(b: &[u8], mut p: usize) -> Result<(usize, Vec<u8>), String> {
+    let mut v = vec![];
+    loop {
+        if p >= b.len() {
+            return Err("gif: truncated sub-blocks".into());
+        }
+        let l = b[p] as usize;
+        p += 1;
+        if l == 0 {
+            return Ok((p, v));
+        }
+        if p + l > b.len() {
+            return Err("gif: sub-block exceeds file".into());
+        }
+        v.extend_from_slice(&b[p..p + l]);
+        p += l;
+    }
+}
+
+fn walk_gif(b: &[u8]) -> Result<Walked, String> {
+    let n = b.len();
+    if n < 13 || (&b[..6] != b"GIF87a" && &b[..6] != b"GIF89a") {
+        return Err("gif: bad header".into());
+    }
+    let mut units = vec![unit("header", 0, 6, 0, 6), unit("LSD", 6, 7, 6, 7)];
+    let mut p = 13;
+    if b[10] & 0x80 != 0 {
+        let l = 3usize << ((b[10] & 7) + 1);
+        if p + l > n {
+            return Err("gif: truncated GCT".into());
+        }
+        units.push(unit("GCT", p, l, p, l));
+        p += l;
+    }
+    let mut store = None;
+    let mut seen_image = false;
+    let mut done = false;
+    while p < n && !done {
+        let start = p;
+        match b[p] {
+            0x3B => {
+                units.push(unit("trailer", p, 1, p + 1, 0));
+                p += 1;
+                done = true;
+            }
+            0x2C => {
+                if p + 10 > n {
+                    return Err("gif: truncated image descriptor".into());
+                }
+                let packed = b[p + 9];
+                p += 10;
+                if packed & 0x80 != 0 {
+                    p += 3usize << ((packed & 7) + 1);
+                }
+                if p + 1 > n {
+                    return Err("gif: truncated image".into());
+                }
+                p += 1; // LZW minimum code size
+                let (e, _) = gif_sub_blocks(b, p)?;
+                units.push(unit("image", start, e - start, p, e - p));
+                p = e;
+                seen_image = true;
+            }
+            0x21 => {
+                if p + 2 > n {
+                    return Err("gif: truncated extension".into());
+                }
+                let label = b[p + 1];
+                let (e, data) = gif_sub_blocks(b, p + 2)?;
+                let kind = match label {
+                    0xF9 => "gce".to_string(),
+                    0xFE => "comment".to_string(),
+                    0x01 => "plain-text".to_string(),
+                    0xFF => {
+                        let id: String = data.iter().take(11).map(|c| if (0x20..0x7F).contains(c) { *c as char } else { '?' }).collect();
+                        format!("app:{id}")
+                    }
+                    x => format!("ext{x:02X}"),
+                };
+                let mut u = unit(kind, start, e - start, p + 2, e - p - 2);
+                if label == 0xFF && b.len() >= p + 14 && b[p + 2] == 11 && &b[p + 3..p + 11] == b"C2PA_GIF" && b[p + 11..p + 14] == [1, 0, 0] {
+                    if seen_image {
+                        u.kind = "app:C2PA_GIF(after-image)".into();
+                    } else {
+                        if store.is_some() {
+                            return Err("gif: more than one C2PA block".into());
+                        }
+                        u.is_manifest = true;
+                        u.kind = "C2PA".into();
+                        u.payload_start = p + 14;
+                        u.payload_len = e - (p + 14);
+                        store = Some(data[11..].to_vec());
+                    }
+                }
+                units.push(u);
+                p = e;
+            }
+            x => return Err(format!("gif: unknown block introducer {x:#04x} at {p}")),
+        }
+    }
+    if !done {
+        return Err("gif: no trailer".into());
+    }
+    if p < n {
+        units.push(unit("trailing", p, n - p, p, n - p));
+    }
+    let spans = units.iter().filter(|u| u.is_manifest).map(|u| (u.start, u.len)).collect();
+    Ok(Walked { units, spans, store })
+}
+
+// ------------------------------------------------------------------------------------------------
+// RIFF
+// ------------------------------------------------------------------------------------------------
+
+fn walk_riff(b: &[u8]) -> Result<Walked, String> {
+    let n = b.len();
+    if n < 12 || &b[..4] != b"RIFF" {
+        return Err("riff: bad header".into());
+    }
+    let size = le32(b, 4) as usize;
+    let end = (8 + size).min(n);
+    if 8 + size > n + 1 {
+        return Err(format!("riff: declared size {size} exceeds file"));
+    }
+    let mut units = vec![unit(format!("RIFF:{}", fourcc(&b[8..12])), 0, 12, 8, 4)];
+    let mut p = 12;
+    let mut store = None;
+    while p < end {
+        if p + 8 > end {
+            return Err(format!("riff: truncated chunk header at {p}"));
+        }
+        let l = le32(b, p + 4) as usize;
+        if p + 8 + l > n {
+            return Err(format!("riff: chunk at {p} exceeds file"));
+        }
+        let id = &b[p..p + 4];
+        let padded = (p + 8 + l + (l & 1)).min(n);
+        let kind = if (id == b"LIST" || id == b"RIFF") && l >= 4 { format!("{}:{}", fourcc(id), fourcc(&b[p + 8..p + 12])) } else { fourcc(id) };
+        let mut u = unit(kind, p, padded - p, p + 8, l);
+        if id == b"C2PA" {
+            if store.is_some() {
+                return Err("riff: more than one C2PA chunk".into());
+            }
+            u.is_manifest = true;
+            store = Some(b[p + 8..p + 8 + l].to_vec());
+        }
+        units.push(u);
+        p = padded;
+    }
+    // further top-level chunks (OpenDML AVIX) or trailing bytes
+    while p < n {
+        if p + 8 <= n {
+            let id = &b[p..p + 4];
+            let l = le32(b, p + 4) as usize;
+            if (id == b"RIFF" || id == b"LIST" || id == b"JUNK") && p + 8 + l <= n {
+                let padded = (p + 8 + l + (l & 1)).min(n);
+                let kind = if l >= 4 && id != b"JUNK" { format!("{}:{}", fourcc(id), fourcc(&b[p + 8..p + 12])) } else { fourcc(id) };
+                units.push(unit(kind, p, padded - p, p + 8, l));
+                p = padded;
+                continue;
+            }
+        }
+        units.push(unit("trailing", p, n - p, p, n - p));
+        p = n;
+    }
+    let spans = units.iter().filter(|u| u.is_manifest).map(|u| (u.start, u.len)).collect();
+    Ok(Walked { units, spans, store })
+}
+
+// ------------------------------------------------------------------------------------------------
+// TIFF
+// ------------------------------------------------------------------------------------------------
+
+#[derive(Clone, Debug)]
+struct TEntry {
+    tag: u16,
+    typ: u16,
+    count: u64,
+    /// position of the value/offset field inside the file
+    field_pos: usize,
+    /// where the value bytes are (inline field or out of line) and how many
+    val_pos: usize,
+    val_len: usize,
+    inline: bool,
+}
+
+#[derive(Clone, Debug)]
+struct TIfd {
+    name: String,
+    off: usize,
+    len: usize,
+    entries: Vec<TEntry>,
+    next: usize,
+    subs: Vec<TIfd>,
+}
+
+struct Tiff<'a> {
+    b: &'a [u8],
+    le: bool,
+    big: bool,
+}
+
+impl Tiff<'_> {
+    fn u16(&self, p: usize) -> Result<u16, String> {
+        let s = self.b.get(p..p + 2).ok_or_else(|| format!("tiff: read past end at {p}"))?;
+        Ok(if self.le { u16::from_le_bytes([s[0], s[1]]) } else { u16::from_be_bytes([s[0], s[1]]) })
+    }
+    fn u32(&self, p: usize) -> Result<u32, String> {
+        let s = self.b.get(p..p + 4).ok_or_else(|| format!("tiff: read past end at {p}"))?;
+        let a = [s[0], s[1], s[2], s[3]];
+        Ok(if self.le { u32::from_le_bytes(a) } else { u32::from_be_bytes(a) })
+    }
+    fn u64(&self, p: usize) -> Result<u64, String> {
+        let s = self.b.get(p..p + 8).ok_or_else(|| format!("tiff: read past end at {p}"))?;
+        let mut a = [0u8; 8];
+        a.copy_from_slice(s);
+        Ok(if self.le { u64::from_le_bytes(a) } else { u64::from_be_bytes(a) })
+    }
+    fn off(&self, p: usize) -> Result<usize, String> {
+        if self.big {
+            Ok(self.u64(p)? as usize)
+        } else {
+            Ok(self.u32(p)? as usize)
+        }
+    }
+    fn type_size(t: u16) -> usize {
+        match t {
+            1 | 2 | 6 | 7 => 1,
+            3 | 8 => 2,
+            4 | 9 | 11 | 13 => 4,
+            5 | 10 | 12 | 16 | 17 | 18 => 8,
+            _ => 1,
+        }
+    }
+    /// integer values of an entry (BYTE/SHORT/LONG/LONG8/IFD types)
+    fn ints(&self, e: &TEntry) -> Result<Vec<u64>, String> {
+        let sz = Self::type_size(e.typ);
+        let mut v = vec![];
+        for i in 0..e.count as usize {
+            let p = e.val_pos + i * sz;
+            v.push(match sz {
+                1 => *self.b.get(p).ok_or("tiff: value past end")? as u64,
+                2 => self.u16(p)? as u64,
+                4 => self.u32(p)? as u64,
+                _ => self.u64(p)?,
+            });
+        }
+        Ok(v)
+    }
+    fn read_ifd(&self, off: usize, name: String, depth: usize, seen: &mut Vec<usize>) -> Result<TIfd, String> {
+        if depth > 8 || seen.contains(&off) {
+            return Err(format!("tiff: IFD cycle or nesting too deep at {off}"));
+        }
+        seen.push(off);
+        let (cnt, esz, cw) = if self.big { (self.u64(off)? as usize, 20, 8) } else { (self.u16(off)? as usize, 12, 2) };
+        let fw = if self.big { 8 } else { 4 };
+        let len = cw + cnt * esz + fw;
+        if off + len > self.b.len() {
+            return Err(format!("tiff: IFD at {off} with {cnt} entries exceeds file"));
+        }
+        let mut entries = vec![];
+        for i in 0..cnt {
+            let p = off + cw + i * esz;
+            let tag = self.u16(p)?;
+            let typ = self.u16(p + 2)?;
+            let count = if self.big { self.u64(p + 4)? } else { self.u32(p + 4)? as u64 };
+            let field_pos = p + 4 + if self.big { 8 } else { 4 };
+            let val_len = (count as usize).checked_mul(Self::type_size(typ)).ok_or("tiff: count overflow")?;
+            let inline = val_len <= fw;
+            let val_pos = if inline { field_pos } else { self.off(field_pos)? };
+            if val_pos + val_len > self.b.len() {
+                return Err(format!("tiff: value of tag {tag} in IFD at {off} exceeds file"));
+            }
+            entries.push(TEntry { tag, typ, count, field_pos, val_pos, val_len, inline });
+        }
+        let next = self.off(off + cw + cnt * esz)?;
+        let mut subs = vec![];
+        for e in &entries {
+            if matches!(e.tag, 330 | 34665 | 34853 | 40965) && matches!(e.typ, 4 | 13 | 16 | 18) {
+                for (k, o) in self.ints(e)?.iter().enumerate() {
+                    let label = match e.tag {
+                        330 => format!("{name}.sub{k}"),
+                        34665 => format!("{name}.exif"),
+                        34853 => format!("{name}.gps"),
+                        _ => format!("{name}.interop"),
+                    };
+                    subs.push(self.read_ifd(*o as usize, label, depth + 1, seen)?);
+                }
+            }
+        }
+        Ok(TIfd { name, off, len, entries, next, subs })
+    }
+}
+
+fn tiff_open(b: &[u8]) -> Result<(Tiff<'_>, Vec<TIfd>), String> {
+    if b.len() < 8 {
+        return Err("tiff: too short".into());
+    }
+    let le = match &b[..2] {
+        b"II" => true,
+        b"MM" => false,
+        _ => return Err("tiff: bad byte order mark".into()),
+    };
+    let mut t = Tiff { b, le, big: false };
+    let magic = t.u16(2)?;
+    let first = match magic {
+        42 => t.u32(4)? as usize,
+        43 => {
+            t.big = true;
+            if b.len() < 16 {
+                return Err("tiff: too short".into());
+            }
+            t.u64(8)? as usize
+        }
+        m => return Err(format!("tiff: bad magic {m}")),
+    };
+    let mut pages = vec![];
+    let mut seen = vec![];
+    let mut off = first;
+    while off != 0 {
+        if pages.len() > 4000 {
+            return Err("tiff: too many pages".into());
+        }
+        let ifd = t.read_ifd(off, format!("ifd{}", pages.len()), 0, &mut seen)?;
+        off = ifd.next;
+        pages.push(ifd);
+    }
+    if pages.is_empty() {
+        return Err("tiff: no IFD".into());
+    }
+    Ok((t, pages))
+}
+
+/// (offsets tag, byte counts tag, label) of image data tables
+const TIFF_DATA_TABLES: [(u16, u16, &str); 2] = [(273, 279, "strip"), (324, 325, "tile")];
+
+fn tiff_segments(t: &Tiff, ifd: &TIfd) -> Result<Vec<(String, usize, usize, usize)>, String> {
+    // (name, entry position of the offset, target, length)
+    let mut v = vec![];
+    for (ot, ct, label) in TIFF_DATA_TABLES {
+        let (Some(o), Some(c)) = (ifd.entries.iter().find(|e| e.tag == ot), ifd.entries.iter().find(|e| e.tag == ct)) else { continue };
+        let offs = t.ints(o)?;
+        let cnts = t.ints(c)?;
+        let osz = Tiff::type_size(o.typ);
+        for (i, off) in offs.iter().enumerate() {
+            let len = cnts.get(i).copied().unwrap_or(0) as usize;
+            v.push((format!("{}:{label}{i}", ifd.name), o.val_pos + i * osz, *off as usize, len));
+        }
+    }
+    Ok(v)
+}
+
+fn tiff_collect_spans(t: &Tiff, ifd: &TIfd, spans: &mut Vec<(usize, usize, String)>) -> Result<(), String> {
+    spans.push((ifd.off, ifd.len, ifd.name.clone()));
+    for e in &ifd.entries {
+        if !e.inline {
+            spans.push((e.val_pos, e.val_len, format!("{}:tag{}", ifd.name, e.tag)));
+        }
+    }
+    for (name, _, off, len) in tiff_segments(t, ifd)? {
+        if off + len <= t.b.len() {
+            spans.push((off, len, name));
+        }
+    }
+    for s in &ifd.subs {
+        tiff_collect_spans(t, s, spans)?;
+    }
+    Ok(())
+}
+
+/// The IFD entry holding the manifest: tag 0xCD41 in the last page, else in the first page.
+fn tiff_manifest_entry(pages: &[TIfd]) -> Option<(usize, &TEntry)> {
+    let last = pages.len() - 1;
+    if let Some(e) = pages[last].entries.iter().find(|e| e.tag == 0xCD41) {
+        return Some((last, e));
+    }
+    pages[0].entries.iter().find(|e| e.tag == 0xCD41).map(|e| (0, e))
+}
+
+fn walk_tiff(b: &[u8]) -> Result<Walked, String> {
+    let (t, pages) = tiff_open(b)?;
+    let hdr = if t.big { 16 } else { 8 };
+    let mut spans: Vec<(usize, usize, String)> = vec![(0, hdr, "header".into())];
+    for p in &pages {
+        tiff_collect_spans(&t, p, &mut spans)?;
+    }
+    let man = tiff_manifest_entry(&pages);
+    let mut store = None;
+    let mut mspan = None;
+    if let Some((pi, e)) = man {
+        if e.typ != 7 {
+            return Err("tiff: C2PA tag is not of type UNDEFINED".into());
+        }
+        store = Some(b[e.val_pos..e.val_pos + e.val_len].to_vec());
+        mspan = Some((e.val_pos, e.val_len, pi));
+    }
+    spans.sort_by(|a, b| a.0.cmp(&b.0).then(b.1.cmp(&a.1)));
+    let mut units: Vec<Unit> = vec![];
+    let mut at = 0usize;
+    for (s, l, name) in spans {
+        let (mut s, mut l) = (s, l);
+        if l == 0 {
+            continue;
+        }
+        if s < at {
+            // overlap with an earlier structure: keep only the part not yet covered
+            if s + l <= at {
+                continue;
+            }
+            l -= at - s;
+            s = at;
+        }
+        if s > at {
+            units.push(unit("gap", at, s - at, at, s - at));
+        }
+        let mut u = unit(name, s, l, s, l);
+        if let Some((ms, ml, _)) = mspan {
+            if ms == s && ml == l && u.kind.ends_with(":tag52545") {
+                u.is_manifest = true;
+                u.kind = "C2PA".into();
+            }
+        }
+        units.push(u);
+        at = s + l;
+    }
+    if at < b.len() {
+        units.push(unit("gap", at, b.len() - at, at, b.len() - at));
+    }
+    let mut mspans = vec![];
+    if let Some((ms, ml, _)) = mspan {
+        if let Some(e) = man.map(|m| m.1) {
+            if e.inline {
+                // a store of <= 4 bytes stored inline in the entry: the unit is the IFD itself
+                let _ = e;
+            }
+        }
+        mspans.push((ms, ml));
+    }
+    Ok(Walked { units, spans: mspans, store })
+}
+
+// ------------------------------------------------------------------------------------------------
+// SVG (minimal XML tokenizer)
+// ------------------------------------------------------------------------------------------------
+
+#[derive(Clone, Debug, PartialEq)]
+enum XTok {
+    Text,
+    Comment,
+    Pi,
+    Doctype,
+    CData,
+    Start(String, bool),
+    End(String),
+}
+
+fn find(b: &[u8], from: usize, pat: &[u8]) -> Option<usize> {
+    if from > b.len() {
+        return None;
+    }
+    b[from..].windows(pat.len()).position(|w| w == pat).map(|i| from + i)
+}
+
+fn xml_tokens(b: &[u8], mut p: usize) -> Result<Vec<(XTok, usize, usize)>, String> {
+    let n = b.len();
+    let mut v = vec![];
+    while p < n {
+        let s = p;
+        if b[p] != b'<' {
+            while p < n && b[p] != b'<' {
+                p += 1;
+            }
+            v.push((XTok::Text, s, p));
+            continue;
+        }
+        if b[p..].starts_with(b"<!--") {
+            let e = find(b, p + 4, b"-->").ok_or("svg: unterminated comment")? + 3;
+            v.push((XTok::Comment, s, e));
+            p = e;
+        } else if b[p..].starts_with(b"<![CDATA[") {
+            let e = find(b, p + 9, b"]]>").ok_or("svg: unterminated CDATA")? + 3;
+            v.push((XTok::CData, s, e));
+            p = e;
+        } else if b[p..].starts_with(b"<?") {
+            let e = find(b, p + 2, b"?>").ok_or("svg: unterminated PI")? + 2;
+            v.push((XTok::Pi, s, e));
+            p = e;
+        } else if b[p..].starts_with(b"<!") {
+            // DOCTYPE, possibly with an internal subset in [...]
+            let mut depth = 0i32;
+            let mut q = p + 2;
+            loop {
+                if q >= n {
+                    return Err("svg: unterminated doctype".into());
+                }
+                match b[q] {
+                    b'[' => depth += 1,
+                    b']' => depth -= 1,
+                    b'>' if depth <= 0 => break,
+                    _ => {}
+                }
+                q += 1;
+            }
+            v.push((XTok::Doctype, s, q + 1));
+            p = q + 1;
+        } else {
+            // start / end / empty-element tag; attribute values may contain '>'
+            let mut q = p + 1;
+            let mut quote = 0u8;
+            loop {
+                if q >= n {
+                    return Err("svg: unterminated tag".into());
+                }
+                let c = b[q];
+                if quote != 0 {
+                    if c == quote {
+                        quote = 0;
+                    }
+                } else if c == b'"' || c == b'\'' {
+                    quote = c;
+                } else if c == b'>' {
+                    break;
+                }
+                q += 1;
+            }
+            let inner = &b[p + 1..q];
+            let is_end = inner.first() == Some(&b'/');
+            let self_close = inner.last() == Some(&b'/');
+            let name_bytes: Vec<u8> = inner.iter().copied().skip(if is_end { 1 } else { 0 }).take_while(|c| !c.is_ascii_whitespace() && *c != b'/').collect();
+            let name = String::from_utf8_lossy(&name_bytes).to_string();
+            v.push((if is_end { XTok::End(name) } else { XTok::Start(name, self_close) }, s, q + 1));
+            p = q + 1;
+        }
+    }
+    Ok(v)
+}
+
+struct SvgInfo {
+    units: Vec<Unit>,
+    /// span of the `<c2pa:manifest>` element and of its text, and the index of the unit holding it
+    manifest: Option<((usize, usize), (usize, usize), usize)>,
+    /// spans of the tokens of the root start tag and of every direct child subtree: (kind, start, end)
+    root_open: Option<(usize, usize)>,
+}
+
+fn svg_parse(b: &[u8]) -> Result<SvgInfo, String> {
+    let mut units = vec![];
+    let mut p = 0;
+    if b.starts_with(&[0xEF, 0xBB, 0xBF]) {
+        units.push(unit("bom", 0, 3, 0, 3));
+        p = 3;
+    }
+    let toks = xml_tokens(b, p)?;
+    let mut depth = 0usize;
+    let mut child_start: Option<(usize, String)> = None;
+    let mut path: Vec<String> = vec![];
+    let mut manifest = None;
+    let mut man_elem_start = None;
+    let mut man_text: Option<(usize, usize)> = None;
+    let mut root_open = None;
+    let mut root_seen = false;
+    for (t, s, e) in toks {
+        match &t {
+            XTok::Start(name, selfc) => {
+                if depth == 0 {
+                    if root_seen {
+                        return Err("svg: more than one root element".into());
+                    }
+                    root_seen = true;
+                    if name != "svg" {
+                        return Err(format!("svg: root element is {name}"));
+                    }
+                    units.push(unit("svg-open", s, e - s, s, e - s));
+                    root_open = Some((s, e));
+                    if *selfc {
+                        continue;
+                    }
+                } else if depth == 1 {
+                    if *selfc {
+                        units.push(unit(name.clone(), s, e - s, s, e - s));
+                    } else {
+                        child_start = Some((s, name.clone()));
+                    }
+                }
+                if !*selfc {
+                    path.push(name.clone());
+                    depth += 1;
+                    if depth == 3 && path[1] == "metadata" && name == "c2pa:manifest" {
+                        if manifest.is_some() || man_elem_start.is_some() {
+                            return Err("svg: more than one c2pa:manifest element".into());
+                        }
+                        man_elem_start = Some(s);
+                        man_text = Some((e, 0));
+                    }
+                }
+            }
+            XTok::End(name) => {
+                if depth == 0 {
+                    return Err("svg: unbalanced end tag".into());
+                }
+                if path.last().map(|x| x.as_str()) != Some(name.as_str()) {
+                    return Err(format!("svg: end tag {name} does not match {:?}", path.last()));
+                }
+                if depth == 3 && man_elem_start.is_some() && name == "c2pa:manifest" && manifest.is_none() {
+                    let ms = man_elem_start.unwrap();
+                    let (ts, _) = man_text.unwrap();
+                    manifest = Some(((ms, e - ms), (ts, s - ts), usize::MAX));
+                }
+                path.pop();
+                depth -= 1;
+                if depth == 1 {
+                    if let Some((cs, cname)) = child_start.take() {
+                        let mut u = unit(cname, cs, e - cs, cs, e - cs);
+                        if let Some((mspan, tspan, idx)) = &mut manifest {
+                            if *idx == usize::MAX && mspan.0 >= cs && mspan.0 + mspan.1 <= e {
+                                u.is_manifest = true;
+                                u.payload_start = tspan.0;
+                                u.payload_len = tspan.1;
+                                *idx = units.len();
+                            }
+                        }
+                        units.push(u);
+                    }
+                } else if depth == 0 {
+                    units.push(unit("svg-close", s, e - s, s, e - s));
+                }
+            }
+            other => {
+                if depth <= 1 {
+                    let kind = match other {
+                        XTok::Text => "text",
+                        XTok::Comment => "comment",
+                        XTok::Pi => "pi",
+                        XTok::Doctype => "doctype",
+                        _ => "cdata",
+                    };
+                    units.push(unit(kind, s, e - s, s, e - s));
+                }
+            }
+        }
+    }
+    if depth != 0 {
+        return Err("svg: unclosed element".into());
+    }
+    if !root_seen {
+        return Err("svg: no root element".into());
+    }
+    Ok(SvgInfo { units, manifest, root_open })
+}
+
+fn walk_svg(b: &[u8]) -> Result<Walked, String> {
+    let info = svg_parse(b)?;
+    let mut store = None;
+    let mut spans = vec![];
+    if let Some((mspan, tspan, _)) = &info.manifest {
+        let txt: Vec<u8> = b[tspan.0..tspan.0 + tspan.1].iter().copied().filter(|c| !c.is_ascii_whitespace()).collect();
+        let dec = base64::engine::general_purpose::STANDARD.decode(&txt).map_err(|e| format!("svg: manifest is not base64: {e}"))?;
+        if !dec.is_empty() {
+            store = Some(dec);
+            spans.push(*mspan);
+        }
+    }
+    let mut units = info.units;
+    if store.is_none() {
+        for u in units.iter_mut() {
+            u.is_manifest = false;
+        }
+    }
+    Ok(Walked { units, spans, store })
+}
+
+// ------------------------------------------------------------------------------------------------
+// ID3v2-prefixed audio: MP3 and FLAC
+// ------------------------------------------------------------------------------------------------
+
+fn is_c2pa_mime(m: &[u8]) -> bool {
+    m == b"application/c2pa" || m == b"application/x-c2pa-manifest-store"
+}
+
+/// Splits a GEOB payload into (mime, data start relative to the payload).
+fn geob_parts(d: &[u8]) -> Option<(Vec<u8>, usize)> {
+    let enc = *d.first()?;
+    let mut p = 1;
+    let mime_end = p + d[p..].iter().position(|c| *c == 0)?;
+    let mime = d[p..mime_end].to_vec();
+    p = mime_end + 1;
+    let wide = enc == 1 || enc == 2;
+    for _ in 0..2 {
+        // filename, description in the text encoding
+        if wide {
+            loop {
+                if p + 2 > d.len() {
+                    return None;
+                }
+                let z = d[p] == 0 && d[p + 1] == 0;
+                p += 2;
+                if z {
+                    break;
+                }
+            }
+        } else {
+            p += d[p..].iter().position(|c| *c == 0)? + 1;
+        }
+    }
+    Some((mime, p))
+}
+
+fn walk_id3_audio(b: &[u8], flac: bool) -> Result<Walked, String> {
+    let n = b.len();
+    let mut units = vec![];
+    let mut p = 0;
+    let mut store = None;
+    if n >= 10 && &b[..3] == b"ID3" {
+        let major = b[3];
+        let flags = b[5];
+        if !(2..=4).contains(&major) {
+            return Err(format!("id3: unsupported version 2.{major}"));
+        }
+        let size = syncsafe(&b[6..10]);
+        let tag_end = 10 + size;
+        if tag_end > n {
+            return Err("id3: tag exceeds file".into());
+        }
+        units.push(unit("ID3-header", 0, 10, 0, 10));
+        p = 10;
+        if flags & 0x40 != 0 && major >= 3 {
+            let l = if major == 4 { syncsafe(&b[p..p + 4]) } else { be32(b, p) as usize + 4 };
+            units.push(unit("ID3-extended-header", p, l, p, l));
+            p += l;
+        }
+        let hl = if major == 2 { 6 } else { 10 };
+        while p + hl <= tag_end && b[p] != 0 {
+            let (id, l) = if major == 2 {
+                (fourcc(&b[p..p + 3]), ((b[p + 3] as usize) << 16) | ((b[p + 4] as usize) << 8) | b[p + 5] as usize)
+            } else if major == 4 {
+                (fourcc(&b[p..p + 4]), syncsafe(&b[p + 4..p + 8]))
+            } else {
+                (fourcc(&b[p..p + 4]), be32(b, p + 4) as usize)
+            };
+            if p + hl + l > tag_end {
+                return Err(format!("id3: frame {id} at {p} exceeds tag"));
+            }
+            let mut u = unit(format!("ID3:{id}"), p, hl + l, p + hl, l);
+            if id == "GEOB" || id == "GEO" {
+                if let Some((mime, ds)) = geob_parts(&b[p + hl..p + hl + l]) {
+                    if is_c2pa_mime(&mime) {
+                        if store.is_some() {
+                            return Err("id3: more than one C2PA GEOB frame".into());
+                        }
+                        u.is_manifest = true;
+                        u.kind = "C2PA-GEOB".into();
+                        u.payload_start = p + hl + ds;
+                        u.payload_len = l - ds;
+                        store = Some(b[p + hl + ds..p + hl + l].to_vec());
+                    }
+                }
+            }
+            units.push(u);
+            p += hl + l;
+        }
+        if p < tag_end {
+            units.push(unit("ID3-padding", p, tag_end - p, p, tag_end - p));
+            p = tag_end;
+        }
+        if flags & 0x10 != 0 && major == 4 && p + 10 <= n && &b[p..p + 3] == b"3DI" {
+            units.push(unit("ID3-footer", p, 10, p, 10));
+            p += 10;
+        }
+    }
+    if flac {
+        if p + 4 > n || &b[p..p + 4] != b"fLaC" {
+            return Err("flac: missing fLaC marker".into());
+        }
+        units.push(unit("fLaC", p, 4, p, 4));
+        p += 4;
+        loop {
+            if p + 4 > n {
+                return Err("flac: truncated metadata block header".into());
+            }
+            let last = b[p] & 0x80 != 0;
+            let t = b[p] & 0x7F;
+            let l = ((b[p + 1] as usize) << 16) | ((b[p + 2] as usize) << 8) | b[p + 3] as usize;
+            if p + 4 + l > n {
+                return Err("flac: metadata block exceeds file".into());
+            }
+            let name = match t {
+                0 => "STREAMINFO".to_string(),
+                1 => "PADDING".to_string(),
+                2 => "APPLICATION".to_string(),
+                3 => "SEEKTABLE".to_string(),
+                4 => "VORBIS_COMMENT".to_string(),
+                5 => "CUESHEET".to_string(),
+                6 => "PICTURE".to_string(),
+                x => format!("BLOCK{x}"),
+            };
+            units.push(unit(name, p, 4 + l, p + 4, l));
+            p += 4 + l;
+            if last {
+                break;
+            }
+        }
+        if p < n {
+            units.push(unit("frames", p, n - p, p, n - p));
+        }
+    } else if p < n {
+        let mut end = n;
+        if n - p >= 128 && &b[n - 128..n - 125] == b"TAG" {
+            end = n - 128;
+        }
+        if !units.is_empty() || (b[p] == 0xFF && p + 1 < n && b[p + 1] & 0xE0 == 0xE0) {
+            if end > p {
+                units.push(unit("audio", p, end - p, p, end - p));
+            }
+            if end < n {
+                units.push(unit("ID3v1", end, n - end, end, n - end));
+            }
+        } else {
+            return Err("mp3: neither ID3v2 tag nor MPEG frame sync".into());
+        }
+    }
+    let spans = units.iter().filter(|u| u.is_manifest).map(|u| (u.start, u.len)).collect();
+    Ok(Walked { units, spans, store })
+}
+
+// ------------------------------------------------------------------------------------------------
+// ISO box based: JPEG XL container and BMFF
+// ------------------------------------------------------------------------------------------------
+
+#[derive(Clone, Debug)]
+struct IsoBox {
+    typ: [u8; 4],
+    start: usize,
+    hdr: usize,
+    end: usize,
+}
+
+fn iso_boxes(b: &[u8], mut p: usize, end: usize, tolerate_tail: bool) -> Result<Vec<IsoBox>, String> {
+    let mut v = vec![];
+    while p < end {
+        if p + 8 > end {
+            if tolerate_tail {
+                break;
+            }
+            return Err(format!("box: truncated header at {p}"));
+        }
+        let s32 = be32(b, p) as usize;
+        let mut typ = [0u8; 4];
+        typ.copy_from_slice(&b[p + 4..p + 8]);
+        let (hdr, size) = match s32 {
+            0 => (8, end - p),
+            1 => {
+                if p + 16 > end {
+                    return Err(format!("box: truncated largesize at {p}"));
+                }
+                (16, be64(b, p + 8) as usize)
+            }
+            s => (8, s),
+        };
+        if size < hdr {
+            return Err(format!("box: size {size} smaller than header at {p}"));
+        }
+        let mut e = p.checked_add(size).ok_or("box: size overflow")?;
+        if e > end {
+            if &typ == b"mdat" {
+                e = end; // truncated mdat: tolerated like most parsers do
+            } else {
+                return Err(format!("box: {} at {p} exceeds its container", fourcc(&typ)));
+            }
+        }
+        v.push(IsoBox { typ, start: p, hdr, end: e });
+        p = e;
+    }
+    Ok(v)
+}
+
+fn walk_jxl(b: &[u8]) -> Result<Walked, String> {
+    if b.len() < 12 || b[..12] != [0, 0, 0, 0x0C, b'J', b'X', b'L', b' ', 0x0D, 0x0A, 0x87, 0x0A] {
+        return Err("jxl: not a JPEG XL container".into());
+    }
+    let boxes = iso_boxes(b, 0, b.len(), true)?;
+    let mut units = vec![];
+    let mut store = None;
+    let mut at = 0;
+    for x in &boxes {
+        let mut u = unit(fourcc(&x.typ), x.start, x.end - x.start, x.start + x.hdr, x.end - x.start - x.hdr);
+        let pl = &b[x.start + x.hdr..x.end];
+        if &x.typ == b"jumb" && pl.len() >= 25 && &pl[4..8] == b"jumd" && pl[8..24] == C2PA_STORE_UUID {
+            if store.is_some() {
+                return Err("jxl: more than one C2PA jumb box".into());
+            }
+            u.is_manifest = true;
+            u.kind = "C2PA-jumb".into();
+            store = Some(b[x.start..x.end].to_vec());
+        }
+        units.push(u);
+        at = x.end;
+    }
+    if at < b.len() {
+        units.push(unit("trailing", at, b.len() - at, at, b.len() - at));
+    }
+    let spans = units.iter().filter(|u| u.is_manifest).map(|u| (u.start, u.len)).collect();
+    Ok(Walked { units, spans, store })
+}
+
+/// (purpose, store start, store len) of a C2PA uuid box, positions absolute.
+fn bmff_c2pa_parts(b: &[u8], x: &IsoBox) -> Option<(String, usize, usize)> {
+    let ps = x.start + x.hdr;
+    if &x.typ != b"uuid" || x.end < ps + 16 + 4 || b[ps..ps + 16] != BMFF_C2PA_UUID {
+        return None;
+    }
+    let mut p = ps + 16 + 4;
+    let z = b[p..x.end].iter().position(|c| *c == 0)?;
+    let purpose = String::from_utf8_lossy(&b[p..p + z]).to_string();
+    p += z + 1;
+    if purpose == "manifest" || purpose == "original" || purpose == "update" {
+        if p + 8 > x.end {
+            return None;
+        }
+        p += 8;
+    }
+    Some((purpose, p, x.end - p))
+}
+
+fn walk_bmff(b: &[u8]) -> Result<Walked, String> {
+    if b.len() < 8 {
+        return Err("bmff: too short".into());
+    }
+    let boxes = iso_boxes(b, 0, b.len(), true)?;
+    if boxes.is_empty() || &boxes[0].typ != b"ftyp" {
+        return Err("bmff: first box is not ftyp".into());
+    }
+    let mut units = vec![];
+    let mut manifest = None;
+    let mut original = None;
+    let mut at = 0;
+    for x in &boxes {
+        let mut u = unit(fourcc(&x.typ), x.start, x.end - x.start, x.start + x.hdr, x.end - x.start - x.hdr);
+        if let Some((purpose, s, l)) = bmff_c2pa_parts(b, x) {
+            u.is_manifest = true;
+            u.kind = format!("C2PA-uuid:{purpose}");
+            u.payload_start = s;
+            u.payload_len = l;
+            match purpose.as_str() {
+                "manifest" => {
+                    if manifest.is_some() {
+                        return Err("bmff: more than one C2PA manifest box".into());
+                    }
+                    manifest = Some(b[s..s + l].to_vec());
+                }
+                "original" => original = Some(b[s..s + l].to_vec()),
+                _ => {}
+            }
+        }
+        units.push(u);
+        at = x.end;
+    }
+    if at < b.len() {
+        units.push(unit("trailing", at, b.len() - at, at, b.len() - at));
+    }
+    let spans = units.iter().filter(|u| u.is_manifest).map(|u| (u.start, u.len)).collect();
+    Ok(Walked { units, spans, store: manifest.or(original) })
+}
+
+const BMFF_CONTAINERS: [&[u8; 4]; 16] = [
+    b"moov", b"trak", b"mdia", b"minf", b"stbl", b"edts", b"udta", b"dinf", b"mvex", b"moof", b"traf", b"mfra", b"meta", b"iprp", b"tref",
+    b"schi",
+];
+
+/// All boxes under `x` (recursively through known containers) with their slash paths.
+fn bmff_descend(b: &[u8], x: &IsoBox, path: &str, depth: usize, out: &mut Vec<(String, IsoBox)>) -> Result<(), String> {
+    if depth > 16 || !BMFF_CONTAINERS.contains(&&x.typ) {
+        return Ok(());
+    }
+    let mut ps = x.start + x.hdr;
+    if &x.typ == b"meta" {
+        // FullBox unless the QuickTime form (child box header follows immediately)
+        let qt = x.end >= ps + 8 && &b[ps + 4..ps + 8] == b"hdlr";
+        if !qt {
+            ps += 4;
+        }
+    }
+    if ps > x.end {
+        return Err(format!("bmff: {path} too small"));
+    }
+    let kids = iso_boxes(b, ps, x.end, false)?;
+    let mut counts: std::collections::HashMap<String, usize> = Default::default();
+    for k in kids {
+        let t = fourcc(&k.typ);
+        let c = counts.entry(t.clone()).or_insert(0);
+        let p = if &k.typ == b"trak" || &k.typ == b"traf" { format!("{path}/{t}[{c}]") } else { format!("{path}/{t}") };
+        *c += 1;
+        out.push((p.clone(), k.clone()));
+        bmff_descend(b, &k, &p, depth + 1, out)?;
+    }
+    Ok(())
+}
+
+/// One absolute offset stored in a BMFF table and the bytes it addresses.
+#[derive(Clone, Debug, PartialEq, Eq, serde::Serialize, serde::Deserialize)]
+pub struct BmffRef {
+    pub name: String,
+    pub entry_pos: usize,
+    pub width: u8,
+    pub target: u64,
+    /// length of the addressed run when the tables allow computing it (chunk size from stsc+stsz, iloc extent length)
+    pub target_len: Option<u64>,
+}
+
+/// stco / co64 chunk offsets (with chunk lengths from stsc + stsz where consistent) and iloc
+/// file-offset extents (construction method 0) of a BMFF file.
+pub fn bmff_offset_refs(b: &[u8]) -> Result<Vec<BmffRef>, String> {
+    let tops = iso_boxes(b, 0, b.len(), true)?;
+    let mut all: Vec<(String, IsoBox)> = vec![];
+    for x in &tops {
+        let t = fourcc(&x.typ);
+        all.push((t.clone(), x.clone()));
+        bmff_descend(b, x, &t, 0, &mut all)?;
+    }
+    let mut refs = vec![];
+    // sample tables
+    let stbls: Vec<&(String, IsoBox)> = all.iter().filter(|(p, _)| p.ends_with("/stbl")).collect();
+    for (sp, _) in stbls {
+        let kid = |t: &str| all.iter().find(|(p, _)| p == &format!("{sp}/{t}")).map(|(_, x)| x.clone());
+        let co = kid("stco").map(|x| (x, 4usize)).or_else(|| kid("co64").map(|x| (x, 8usize)));
+        let Some((co, wd)) = co else { continue };
+        let d = co.start + co.hdr;
+        if d + 8 > co.end {
+            return Err(format!("bmff: {sp} chunk offset box too small"));
+        }
+        let cnt = be32(b, d + 4) as usize;
+        if d + 8 + cnt * wd > co.end {
+            return Err(format!("bmff: {sp} chunk offset table exceeds box"));
+        }
+        // chunk lengths
+        let mut lens: Vec<Option<u64>> = vec![None; cnt];
+        if let (Some(sc), Some(sz)) = (kid("stsc"), kid("stsz")) {
+            let (scd, szd) = (sc.start + sc.hdr, sz.start + sz.hdr);
+            if scd + 8 <= sc.end && szd + 12 <= sz.end {
+                let nruns = be32(b, scd + 4) as usize;
+                let fixed = be32(b, szd + 4) as u64;
+                let nsamp = be32(b, szd + 8) as usize;
+                let runs_ok = scd + 8 + nruns * 12 <= sc.end;
+                let sizes_ok = fixed != 0 || szd + 12 + nsamp * 4 <= sz.end;
+                if runs_ok && sizes_ok {
+                    let run = |i: usize| (be32(b, scd + 8 + i * 12) as usize, be32(b, scd + 12 + i * 12) as usize);
+                    let mut sample = 0usize;
+                    let mut r = 0usize;
+                    for c in 0..cnt {
+                        while r + 1 < nruns && run(r + 1).0 <= c + 1 {
+                            r += 1;
+                        }
+                        if nruns == 0 || run(r).0 > c + 1 {
+                            break;
+                        }
+                        let per = run(r).1;
+                        if sample + per > nsamp {
+                            break;
+                        }
+                        let mut l = 0u64;
+                        for s in sample..sample + per {
+                            l += if fixed != 0 { fixed } else { be32(b, szd + 12 + s * 4) as u64 };
+                        }
+                        lens[c] = Some(l);
+                        sample += per;
+                    }
+                }
+            }
+        }
+        for c in 0..cnt {
+            let pos = d + 8 + c * wd;
+            let target = if wd == 4 { be32(b, pos) as u64 } else { be64(b, pos) };
+            refs.push(BmffRef { name: format!("{sp}/{}[{c}]", fourcc(&co.typ)), entry_pos: pos, width: wd as u8, target, target_len: lens[c] });
+        }
+    }
+    // item locations
+    for (ip, x) in all.iter().filter(|(p, _)| p.ends_with("/iloc")) {
+        let full = x.start + x.hdr;
+        if full + 4 + 2 > x.end {
+            return Err("bmff: iloc too small".into());
+        }
+        let version = b[full];
+        let mut p = full + 4;
+        let (osz, lsz) = ((b[p] >> 4) as usize, (b[p] & 15) as usize);
+        let (bsz, isz) = ((b[p + 1] >> 4) as usize, if version >= 1 { (b[p + 1] & 15) as usize } else { 0 });
+        p += 2;
+        let rd = |p: &mut usize, w: usize| -> Result<u64, String> {
+            if *p + w > x.end {
+                return Err("bmff: iloc truncated".into());
+            }
+            let mut v = 0u64;
+            for i in 0..w {
+                v = (v << 8) | b[*p + i] as u64;
+            }
+            *p += w;
+            Ok(v)
+        };
+        for w in [osz, lsz, bsz, isz] {
+            if ![0, 4, 8].contains(&w) {
+                return Err(format!("bmff: iloc field size {w}"));
+            }
+        }
+        let nitems = if version < 2 { rd(&mut p, 2)? } else { rd(&mut p, 4)? };
+        for _ in 0..nitems {
+            let id = if version < 2 { rd(&mut p, 2)? } else { rd(&mut p, 4)? };
+            let cm = if version >= 1 { rd(&mut p, 2)? & 15 } else { 0 };
+            let _dref = rd(&mut p, 2)?;
+            let base_pos = p;
+            let base = rd(&mut p, bsz)?;
+            let next = rd(&mut p, 2)?;
+            if cm == 0 && bsz > 0 && base != 0 {
+                refs.push(BmffRef { name: format!("{ip}/item{id}/base"), entry_pos: base_pos, width: bsz as u8, target: base, target_len: None });
+            }
+            for e in 0..next {
+                if version >= 1 && isz > 0 {
+                    rd(&mut p, isz)?;
+                }
+                let opos = p;
+                let eo = rd(&mut p, osz)?;
+                let el = rd(&mut p, lsz)?;
+                if cm == 0 {
+                    if base == 0 && osz > 0 {
+                        refs.push(BmffRef { name: format!("{ip}/item{id}/extent{e}"), entry_pos: opos, width: osz as u8, target: eo, target_len: Some(el) });
+                    } else {
+                        // relative to the base: not an absolute entry, but still addressed media bytes
+                        refs.push(BmffRef { name: format!("{ip}/item{id}/extent{e}(base+)"), entry_pos: opos, width: 0, target: base + eo, target_len: Some(el) });
+                    }
+                }
+            }
+        }
+    }
+    Ok(refs)
+}
+
+// ------------------------------------------------------------------------------------------------
+// media content (C09 oracle)
+// ------------------------------------------------------------------------------------------------
+
+fn slice_clamped(b: &[u8], off: u64, len: u64) -> Vec<u8> {
+    let n = b.len() as u64;
+    if off >= n {
+        return vec![];
+    }
+    b[off as usize..(off + len).min(n) as usize].to_vec()
+}
+
+/// Ordered non-manifest units with their payload bytes. For BMFF and TIFF the boxes / IFDs that hold
+/// absolute offsets are reported with those fields zeroed, plus one entry per offset table entry with
+/// the dereferenced bytes.
+pub fn media_content(kind: &str, b: &[u8]) -> Result<Vec<(String, Vec<u8>)>, String> {
+    let fam = family(kind).ok_or_else(|| format!("walk: unknown kind {kind}"))?;
+    let w = walk_full(kind, b)?;
+    let mut out: Vec<(String, Vec<u8>)> = vec![];
+    match fam {
+        "jpeg" => {
+            for u in w.units.iter().filter(|u| !u.is_manifest && u.kind != "fill") {
+                out.push((u.kind.clone(), b[u.payload_start..u.payload_start + u.payload_len].to_vec()));
+            }
+        }
+        "png" | "jxl" => {
+            for u in w.units.iter().filter(|u| !u.is_manifest && u.kind != "signature") {
+                out.push((u.kind.clone(), b[u.payload_start..u.payload_start + u.payload_len].to_vec()));
+            }
+        }
+        "gif" => {
+            for u in w.units.iter().filter(|u| !u.is_manifest) {
+                if u.kind == "header" {
+                    // embedding extensions needs version 89a: the version digits are not media content
+                    out.push(("header".into(), b"GIF".to_vec()));
+                } else {
+                    out.push((u.kind.clone(), b[u.start..u.end()].to_vec()));
+                }
+            }
+        }
+        "riff" => {
+            for u in w.units.iter().filter(|u| !u.is_manifest) {
+                out.push((u.kind.clone(), b[u.payload_start..u.payload_start + u.payload_len].to_vec()));
+            }
+        }
+        "mp3" | "flac" => {
+            for u in w.units.iter().filter(|u| !u.is_manifest) {
+                if u.kind == "ID3-header" || u.kind == "ID3-padding" || u.kind == "ID3-footer" || u.kind == "ID3-extended-header" {
+                    continue;
+                }
+                out.push((u.kind.clone(), b[u.payload_start..u.payload_start + u.payload_len].to_vec()));
+            }
+        }
+        "svg" => {
+            let info = svg_parse(b)?;
+            for (i, u) in info.units.iter().enumerate() {
+                let mut bytes = b[u.start..u.end()].to_vec();
+                if u.kind == "svg-open" {
+                    // the C2PA namespace declaration is part of the embedding, not of the media
+                    let s = String::from_utf8_lossy(&bytes).to_string();
+                    bytes = s.replace(" xmlns:c2pa=\"http://c2pa.org/manifest\"", "").into_bytes();
+                }
+                if let Some((mspan, _, idx)) = &info.manifest {
+                    if *idx == i {
+                        let (rs, re) = (mspan.0 - u.start, mspan.0 + mspan.1 - u.start);
+                        bytes.drain(rs..re);
+                        if bytes == b"<metadata></metadata>" {
+                            continue;
+                        }
+                    }
+                }
+                out.push((u.kind.clone(), bytes));
+            }
+        }
+        "tiff" => {
+            let (t, pages) = tiff_open(b)?;
+            out.push(("header".into(), b[..4].to_vec()));
+            fn ifd_content(t: &Tiff, ifd: &TIfd, out: &mut Vec<(String, Vec<u8>)>) -> Result<(), String> {
+                let segs = tiff_segments(t, ifd)?;
+                for e in &ifd.entries {
+                    if e.tag == 0xCD41 {
+                        continue;
+                    }
+                    let is_ptr = matches!(e.tag, 273 | 324 | 330 | 34665 | 34853 | 40965);
+                    let val = if is_ptr { vec![] } else { t.b[e.val_pos..e.val_pos + e.val_len].to_vec() };
+                    out.push((format!("{}:tag{}:type{}:count{}", ifd.name, e.tag, e.typ, e.count), val));
+                }
+                for (name, _, off, len) in segs {
+                    out.push((name, slice_clamped(t.b, off as u64, len as u64)));
+                }
+                for s in &ifd.subs {
+                    ifd_content(t, s, out)?;
+                }
+                Ok(())
+            }
+            for p in &pages {
+                if p.entries.len() == 1 && p.entries[0].tag == 0xCD41 {
+                    continue; // the IFD the SDK appends for multi-page files
+                }
+                ifd_content(&t, p, &mut out)?;
+            }
+        }
+        "bmff" => {
+            let refs = bmff_offset_refs(b)?;
+            for u in w.units.iter().filter(|u| !u.is_manifest) {
+                let mut bytes = b[u.payload_start..u.payload_start + u.payload_len].to_vec();
+                for r in refs.iter().filter(|r| r.width > 0 && r.entry_pos >= u.payload_start && r.entry_pos < u.end()) {
+                    let s = r.entry_pos - u.payload_start;
+                    for x in &mut bytes[s..s + r.width as usize] {
+                        *x = 0;
+                    }
+                }
+                out.push((u.kind.clone(), bytes));
+            }
+            for r in &refs {
+                let name = if r.target >= b.len() as u64 { format!("{}!oob", r.name) } else { r.name.clone() };
+                out.push((name, slice_clamped(b, r.target, r.target_len.unwrap_or(16))));
+            }
+        }
+        _ => {}
+    }
+    Ok(out)
+}
